@@ -34,6 +34,7 @@ package yqlib
 //@   props C15 C01 C11
 //@   ensures @ok-iff (result2 == nil) == intOk(numberString)
 //@   ensures @value implies(result2 == nil, result1 == intOf(numberString))
+//@   ensures @format {C01} result0 == intFormat(numberString)
 
 //@ func isTruthyNode
 //@   props C15 C01 C19 C11
@@ -414,8 +415,9 @@ package yqlib
 //@   ensures !result.DontAutoCreate && result.MatchingNodes == n.MatchingNodes
 
 //@ func (*Context).GetDateTimeLayout
-//@   props C11
+//@   props C01 C15 C11
 //@   requires n != nil
+//@   ensures result == ite(n.datetimeLayout != "", n.datetimeLayout, "2006-01-02T15:04:05Z07:00")
 
 // ---------------------------------------------------------------------------------------------
 // data_tree_navigator.go: the dispatcher. Assumed (trusted) contract, established handler by handler:
@@ -1029,3 +1031,55 @@ package yqlib
 //@ func (*Context).ToString
 //@   props C11
 //@   requires n != nil && nodeList(n.MatchingNodes)
+
+// ---------------------------------------------------------------------------------------------
+// operator_add.go: + on scalars (C01). Stated for core-tagged operands ("!!..."), default date-time layout.
+
+//@ pred coreTagged(n) = strings.HasPrefix(n.Tag, "!!")
+
+//@ func addDateTimes
+//@   props C11
+//@   requires target != nil && lhs != nil && rhs != nil
+//@   modifies target.Value
+
+//@ func addScalars
+//@   props C01 C11
+//@   requires target != nil && lhs != nil && rhs != nil
+//@   modifies target.Tag, target.Value
+//@   ensures @int-plus-int-defined {C01} implies(old(lhs.Tag) == "!!int" && old(rhs.Tag) == "!!int", (result == nil) == (intOk(old(lhs.Value)) && intOk(old(rhs.Value))))
+//@   ensures @int-plus-int-value {C01} implies(old(lhs.Tag) == "!!int" && old(rhs.Tag) == "!!int" && result == nil && intFormat(old(lhs.Value)) == "%v", target.Tag == "!!int" && target.Value == itoa(wrapS64(intOf(old(lhs.Value)) + intOf(old(rhs.Value)))))
+//@   ensures @string-plus {C01} implies(old(lhs.Tag) == "!!str" && context.datetimeLayout == "" && old(coreTagged(rhs)), result == nil && target.Tag == "!!str" && target.Value == ite(old(rhs.Tag) == "!!null", old(lhs.Value), old(lhs.Value) + old(rhs.Value)))
+//@   ensures @plus-string {C01} implies(old(coreTagged(lhs)) && old(lhs.Tag) != "!!str" && old(lhs.Tag) != "!!timestamp" && old(rhs.Tag) == "!!str", result == nil && target.Tag == "!!str" && target.Value == old(lhs.Value) + old(rhs.Value))
+//@   ensures @undefined-is-an-error {C01} implies(old(coreTagged(lhs)) && old(coreTagged(rhs)) && old(lhs.Tag) != "!!str" && old(lhs.Tag) != "!!timestamp" && old(lhs.Tag) != "!!int" && old(lhs.Tag) != "!!float" && old(rhs.Tag) != "!!str", result != nil)
+//@   ensures @number-plus-non-number-is-an-error {C01} implies((old(lhs.Tag) == "!!int" || old(lhs.Tag) == "!!float") && old(coreTagged(rhs)) && old(rhs.Tag) != "!!str" && old(rhs.Tag) != "!!int" && old(rhs.Tag) != "!!float", result != nil)
+
+// operator_subtract.go, operator_multiply.go, operator_modulo.go: integer kernels with int64 wrap-around (C01)
+
+//@ func subtractDateTime
+//@   props C11
+//@   requires target != nil && lhs != nil && rhs != nil
+//@   modifies target.Value
+
+//@ func subtractScalars
+//@   props C01 C11
+//@   requires target != nil && lhs != nil && rhs != nil
+//@   modifies target.Tag, target.Value
+//@   ensures @int-minus-int-defined {C01} implies(old(lhs.Tag) == "!!int" && old(rhs.Tag) == "!!int", (result == nil) == (intOk(old(lhs.Value)) && intOk(old(rhs.Value))))
+//@   ensures @int-minus-int-value {C01} implies(old(lhs.Tag) == "!!int" && old(rhs.Tag) == "!!int" && result == nil && intFormat(old(lhs.Value)) == "%v", target.Tag == "!!int" && target.Value == itoa(wrapS64(intOf(old(lhs.Value)) - intOf(old(rhs.Value)))))
+//@   ensures @strings-cannot-be-subtracted {C01} implies(old(lhs.Tag) == "!!str" && context.datetimeLayout == "", result != nil)
+//@   ensures @undefined-is-an-error {C01} implies(old(coreTagged(lhs)) && old(coreTagged(rhs)) && old(lhs.Tag) != "!!timestamp" && !((old(lhs.Tag) == "!!int" || old(lhs.Tag) == "!!float") && (old(rhs.Tag) == "!!int" || old(rhs.Tag) == "!!float")) && !(old(lhs.Tag) == "!!str" && context.datetimeLayout != ""), result != nil)
+
+//@ func multiplyIntegers
+//@   props C01 C11
+//@   requires lhs != nil && rhs != nil
+//@   ensures @defined {C01} (result1 == nil) == (intOk(lhs.Value) && intOk(rhs.Value))
+//@   ensures @value {C01} implies(result1 == nil, result0 != nil && fresh(result0) && result0.Kind == ScalarNode && result0.Tag == lhs.Tag && implies(intFormat(lhs.Value) == "%v", result0.Value == itoa(wrapS64(intOf(lhs.Value) * intOf(rhs.Value)))))
+//@   ensures @operands-untouched {C01} lhs.Value == old(lhs.Value) && rhs.Value == old(rhs.Value) && lhs.Tag == old(lhs.Tag)
+
+//@ func moduloScalars
+//@   props C01 C11
+//@   requires target != nil && lhs != nil && rhs != nil
+//@   modifies target.Kind, target.Style, target.Tag, target.Value
+//@   ensures @int-mod-int-defined {C01} implies(old(lhs.Tag) == "!!int" && old(rhs.Tag) == "!!int", (result == nil) == (intOk(old(lhs.Value)) && intOk(old(rhs.Value)) && intOf(old(rhs.Value)) != 0))
+//@   ensures @int-mod-int-value {C01} implies(old(lhs.Tag) == "!!int" && old(rhs.Tag) == "!!int" && result == nil && intFormat(old(lhs.Value)) == "%v", target.Tag == "!!int" && target.Value == itoa(tmod(intOf(old(lhs.Value)), intOf(old(rhs.Value)))))
+//@   ensures @undefined-is-an-error {C01} implies(old(coreTagged(lhs)) && old(coreTagged(rhs)) && !((old(lhs.Tag) == "!!int" || old(lhs.Tag) == "!!float") && (old(rhs.Tag) == "!!int" || old(rhs.Tag) == "!!float")), result != nil)
